@@ -25,7 +25,8 @@ From VM Require Spec.C01 Spec.C14 Suite.C14 Proofs.C02 Proofs.C14.
 From VM Require Proofs.C07Geom Proofs.C07Data Proofs.C07Bitmap Proofs.C07Guest.
 From VM Require Import Spec.C07 Suite.C07 Proofs.C07.
 
-(* the assembled model - one call of any of the 58 entry points on any of the 7 target kinds, any
+(* the assembled model - one call of any of the 58 entry points on any of the 8 target kinds (the 8th: a bitmap
+   created and then ENLARGED by any k with byte_size + k < 2^64), any
    well-formed layout / container / bitmap of ANY size, any arguments, both build profiles -
    satisfies the checker: every call returns a value or an error value; the only panics are the
    documented ones (array index >= element count; checked_align_up with a non power of two) *)
@@ -198,6 +199,27 @@ Proof. exact C07Bitmap.slice_ops_total_lemma. Qed.
 Theorem C07_bitmap_new_inv : forall bytes ps, 0 < ps -> bytes < W64 -> Bitmap.bm_inv (Bitmap.bm_new bytes ps).
 Proof. exact C07Bitmap.new_inv_lemma. Qed.
 
+(* enlarge keeps the representation invariant - word vector sized from the ROUNDED-UP page count - from any
+   bitmap that has it (so after any number of enlarges) whenever the sum of the byte sizes fits usize; with the
+   four totality theorems above (stated for every bitmap with bm_inv): on an enlarged bitmap every range, bit,
+   query and slice-view entry point returns for ALL usize arguments - no out-of-bounds index into the Vec *)
+Theorem C07_bitmap_enlarge_inv : forall m b add, Bitmap.bm_inv b -> Bitmap.bm_byte_size b + add < W64 ->
+  exists b', Bitmap.bm_enlarge_o m b add = Val b' /\ Bitmap.bm_inv b' /\
+             Bitmap.bm_size b' = div_ceil (Bitmap.bm_byte_size b + add) (Bitmap.bm_ps b) /\
+             N.of_nat (length (Bitmap.bm_words b')) = div_ceil (Bitmap.bm_size b') 64.
+Proof. exact C07Bitmap.enlarge_inv_lemma. Qed.
+
+(* the target kind of the suite: AtomicBitmap::new(bytes, ps) then enlarge(add) *)
+Theorem C07_bitmap_new_enlarge_inv : forall m bytes ps add, 0 < ps -> bytes + add < W64 ->
+  exists b', Bitmap.bm_enlarge_o m (Bitmap.bm_new bytes ps) add = Val b' /\ Bitmap.bm_inv b' /\
+             Bitmap.bm_size b' = div_ceil (bytes + add) ps.
+Proof. exact C07Bitmap.new_enlarge_inv_lemma. Qed.
+
+(* ... hence ONE operation of any kind on it returns (class 0), whatever arguments it is given *)
+Theorem C07_bitmap_enlarged_ops_total : forall m bs ps k op a b c,
+  50 <= op <= 58 -> 0 < ps -> bs + k < W64 -> a < W64 -> bitmap_enl_cls m bs ps k op a b c <= 1.
+Proof. exact bitmap_enl_cls_le. Qed.
+
 (* ---------------------------------------------------------------- the other documented panic *)
 (* checked_align_up panics exactly when the alignment fails the code's own power-of-two test
    (p = 0 or p & (p - 1) <> 0), in both profiles; every power of two passes it *)
@@ -220,7 +242,11 @@ Example C07_nonvacuous :
    wf07 c = true /\ run_C07 c = 1) /\
   (let c := {| q_mode := Debug; q_tgt := 5; q_par := [4096; 1]; q_op := 50; q_ty := 0; q_a := 0;
                q_b := 18446744073709551615; q_c := 0; q_x := [] |} in
-   wf07 c = true /\ run_C07 c = 0).
+   wf07 c = true /\ run_C07 c = 0) /\
+  (* 64 pages enlarged by 64 pages and one byte: 129 pages in 3 words; set_bit of the last page returns *)
+  (let c := {| q_mode := Debug; q_tgt := 7; q_par := [262144; 4096; 262145]; q_op := 52; q_ty := 0; q_a := 128;
+               q_b := 0; q_c := 0; q_x := [] |} in
+   wf07 c = true /\ small07 c = true /\ run_C07 c = 0).
 Proof. vm_compute. repeat split. Qed.
 
 Print Assumptions C07_model_ok.
@@ -247,5 +273,8 @@ Print Assumptions C07_bitmap_range_ops_total.
 Print Assumptions C07_bitmap_bit_ops_total.
 Print Assumptions C07_bitmap_slice_views_total.
 Print Assumptions C07_bitmap_new_inv.
+Print Assumptions C07_bitmap_enlarge_inv.
+Print Assumptions C07_bitmap_new_enlarge_inv.
+Print Assumptions C07_bitmap_enlarged_ops_total.
 Print Assumptions C07_align_up_panic_iff.
 Print Assumptions C07_pow2_accepted.
